@@ -523,7 +523,9 @@ def device_oracle(ctx, case, setup, passes, lid, stats):
                 ctx.fail("device: a cell was written more than twice in one pass (more than one tick per pass)", case, "<= 2 writes per cell", per_col, key="dev-one-step")
                 return
         else:
-            if loop:
+            if speed < 0:
+                pass    # cast to unsigned long: a huge period; after the first step with the clock running none is due
+            elif loop:
                 last = steps[-1] if steps else 0
                 if speed <= 0 or last <= 0 or now - last >= speed:
                     ctx.fail("device: a due tick (not early) did not advance a looping animation", case, "a frame", f"pass {k} millis={now} last step {last}", key="dev-due-skipped")
@@ -558,6 +560,13 @@ def gen_device_groups(ctx):
                         singles.append({"style": style, "cols": cols, "n": n, "loop": loop, "speed": speed, "kind": kind,
                                         "rows": rows, "row": (j // 3) % rows, "i2c": j % 2 == 1, "salt": j})
                     j += 1
+    # negative speed_ms (the emitted call casts it to unsigned long): every style x loop on three geometries
+    for style in STYLES:
+        for (cols, n) in ((2, 3), (8, 3), (16, 20)):
+            for loop in (False, True):
+                singles.append({"style": style, "cols": cols, "n": n, "loop": loop, "speed": -7,
+                                "kind": "late", "rows": 2, "row": j % 2, "i2c": j % 2 == 1, "salt": j})
+                j += 1
     groups = {}
     for s in singles:
         cls = "S" if s["cols"] <= 8 else "L"
@@ -590,7 +599,7 @@ def gen_device_groups(ctx):
             anims = []
             for _ in range(rng.randint(1, 3)):
                 anims.append([rng.choice(STYLES), rng.randrange(rows), mk_text(rng.choice(len_classes(cols)), salt=j + q + len(anims), spaced=rng.random() < 0.3),
-                              base_speed if rt else rng.choice([0, 1, 3, 100]), rng.random() < 0.5])
+                              base_speed if rt else rng.choice([0, 1, 3, 100, -3]), rng.random() < 0.5])
             lcds.append({"name": f"m{q:02d}", "cols": cols, "rows": rows, "i2c": rng.random() < 0.5, "anims": anims})
         nows = tick_times("mixed", rng.choice([1, 3, 100]), 60, rng, cap=250)
         sketches.append({"lcds": lcds, "nows": nows, "runtime_speed": base_speed if rt else False, "tag": "multi-rt" if rt else "multi"})
@@ -787,9 +796,9 @@ def run(ctx: C.Ctx):
                 "tick histories are long enough to contain more than len+2*cols+2 due ticks (non-looping). Non-trivial = at least one frame was drawn by a tick; distinct by (geometry, animations, schedule prefix).",
         "samples": [hcases[0], hcases[len(hcases) // 2], dindex[0][0] if dindex else None],
         "distribution": stats,
-        "guard": "host: cols, rows >= 1, tick times positive and non-decreasing; device: additionally 0 <= row < rows, speed_ms >= 0, printable ASCII text, "
+        "guard": "host: cols, rows >= 1, tick times positive and non-decreasing; device: additionally 0 <= row < rows, printable ASCII text (speed_ms may be negative: cast to unsigned long), "
                  "1 <= cols <= 40, lcd.animate calls placed before `while True:` (outside: F-C18-animate-in-loop-never-ticked)",
-        "unmodelled": ["device: non-ASCII text (String is bytes), negative speed_ms (unsigned conversion), row outside the display (library clamps the row), 32-bit millis() wrap",
+        "unmodelled": ["device: non-ASCII text (String is bytes), row outside the display (library clamps the row), millis() wrap-around, speed_ms >= 2^W (wraps in the unsigned cast)",
                        "device: DDRAM addressing beyond 40 columns / 4-row interleaving (shown unreachable by C18_frame_geometry_device)",
                        "host: non-int now_ms / speed_ms, LCD.begin() during an animation"],
         "trusted_base": C.COMMON_TRUSTED + ["harness/impl/c18_impl.py (real LCD object; buffer item assignments recorded by a list subclass; time.sleep replaced by a counter)",
